@@ -80,6 +80,22 @@ def Dec.fmtG (a : Dec) : Bytes :=
   else
     sign ++ ds.take dp.toNat ++ b "." ++ ds.drop dp.toNat
 
+/-- strconv.FormatFloat(f, 'f', -1, 64): shortest digits, never an exponent -/
+def Dec.fmtF (a : Dec) : Bytes :=
+  if a.m = 0 then b "0" else
+  let ds := natDigits a.m.natAbs
+  let nd := ds.length
+  let dp : Int := nd + a.e
+  let sign : Bytes := if a.m < 0 then b "-" else []
+  if dp ≤ 0 then sign ++ b "0." ++ List.replicate (-dp).toNat 48 ++ ds
+  else if dp.toNat ≥ nd then sign ++ ds ++ List.replicate (dp.toNat - nd) 48
+  else sign ++ ds.take dp.toNat ++ b "." ++ ds.drop dp.toNat
+
+def Flt.fmtF : Flt → Bytes
+  | .fin d => d.fmtF
+  | .pinf => b "+Inf"
+  | .ninf => b "-Inf"
+
 def Flt.fmtG : Flt → Bytes
   | .fin d => d.fmtG
   | .pinf => b "+Inf"
